@@ -310,7 +310,12 @@ fn command_position(data: &mut Data, terms: &mut SplitAsciiWhitespace<'_>) -> an
 
                 let mut moves = ArrayVec::new();
                 game.get_moves(&mut moves, true);
-                if moves.iter().any(|&allowed_move| _move == allowed_move) {
+                // The parser infers the kind of move from the board, so the text itself must
+                // also be the text of the matched legal move (e.g. c2d3 must not be played
+                // as the en passant capture c5d6)
+                if moves.iter().any(|&allowed_move| {
+                    _move == allowed_move && allowed_move.uci_notation() == move_str
+                }) {
                     game.push_history(_move);
                     if game.len() >= 400 {
                         data.current_game = None;
